@@ -53,7 +53,13 @@ RoundedOK ==
 RefOK == \/ ~HasField(Cfg, "iref")
          \/ (Tally("ref") /\ OSame(ObsNow, ObsAt(Cfg.iref, Len(hist), idx)))
 
+(* C14 "Echo reports the latest input, bit-exactly": also the sign of a zero (the input symbol NegZero is fed as -0.0) *)
+EchoZeroOK == \/ Cfg.k # "Echo" \/ HasField(Cfg, "c") \/ Len(hist) = 0 \/ ~OIsSome(ObsNow)
+              \/ ~QIsZero(Raw[Len(Raw)])
+              \/ (Tally("echo.zero") /\ ((ObsNow[2] = 1) <=> (hist[Len(hist)] = NegZero)))
+
 Verdict == /\ Tally("states")
+           /\ (EchoZeroOK \/ Report(Prop, "bit-exact"))
            /\ (RoundedOK \/ Report(Prop, "bit-exact-rounding"))
            /\ (RefOK \/ Report(Prop, "bit-exact-reference"))
            /\ (BitExactOK \/ Report(Prop, "bit-exact"))
